@@ -254,7 +254,7 @@ def cbin_check(case):
 
 # ------------------------------------------------------------------ forced re-runs
 def rerun_cases(tier, seed):
-    return [(a, same, pc) for a in ([0, 1, 2, 3, 3, 0], [1, 3, 3, 1, 1, 3], [2, 2, 2, 2, 2, 2]) for same in (True, False) for pc in (True, False)]
+    return [(a, same, pc) for a in ([0, 1, 2, 3, 3, 0], [1, 3, 3, 1, 1, 3], [2, 2, 2, 2, 2, 2]) for same in (True, False, "reinit", "reinit-other-window") for pc in (True, False)]
 
 
 def rerun_check(case):
@@ -267,7 +267,8 @@ def rerun_check(case):
     orig_sha = np2.sha1(ap)
     orig_meta = spikeglx.read_meta_data(ap.with_suffix(".meta"))
     seen = {}
-    ctx = "shank map %r, split then forced re-split (%s converter object, post_check=%s)" % (assign, "same" if same_object else "fresh", post_check)
+    ctx = "shank map %r, split then forced re-split (%s converter object, post_check=%s)" % (
+        assign, {True: "same", False: "fresh"}.get(same_object, "same, init_params() called again%s," % (" with another window" if "other" in str(same_object) else "")), post_check)
     try:
         conv = neuropixel.NP2Converter(ap, post_check=post_check, compress=False)
         conv.init_params(nwindow=600)
@@ -276,6 +277,8 @@ def rerun_check(case):
             conv.sr.close()
             conv = neuropixel.NP2Converter(ap, post_check=post_check, compress=False)
             conv.init_params(nwindow=600)
+        elif same_object in ("reinit", "reinit-other-window"):
+            conv.init_params(nwindow=600 if same_object == "reinit" else 648)
         st2 = conv.process(overwrite=True)
         conv.sr.close()
         if (st1, st2) != (1, 1):
